@@ -62,6 +62,8 @@ def run(ctx):
     if len(mq) == 1:
         sws = [blk for blk in rec.blocks if blk.term.kind == 'switch' and blk.term.j.get('adt') == 'std::option::Option' and 'on' in blk.term.j and
                any(s[0] == 'call' and s[2] == mq[0].idx for s in sources(an, Operand({'c': blk.term.j['on']})))]
+        if len(sws) > 1:
+            sws = [x for x in sws if all(an.dominates(x.idx, y.idx) for y in sws)]
         if len(sws) != 1:
             ctx.undecide('R16.1', 'switch on the query() result not found')
         else:
